@@ -395,6 +395,17 @@ pub fn cloud_server(store: ObjectStore, cryptor: &Cryptor) -> CloudHandle {
     CloudHandle(CloudServer::verif_new(store, cryptor.0.clone()))
 }
 
+/// Construct the object-store server the way `ServerConfig` does: the salt is read from (or
+/// created in) the store and the key is derived from it.
+pub async fn cloud_server_new(
+    store: ObjectStore,
+    encryption_secret: Vec<u8>,
+) -> Result<CloudHandle> {
+    Ok(CloudHandle(
+        CloudServer::new(store, encryption_secret).await?,
+    ))
+}
+
 impl CloudHandle {
     pub async fn cleanup(&mut self) -> Result<()> {
         self.0.verif_cleanup().await
